@@ -31,7 +31,7 @@ type sample struct {
 func (w *world) Run(t *rt.Tape, trace bool) *core.Result {
 	res := &core.Result{Reach: map[string]int{}}
 	seed := core.BeginRun(t)
-	p := ops.Draw(t)
+	p := ops.DrawTier(t, w.tier)
 	res.Sample = sample{Circuit: gen.Describe(p.Circ), Tasks: p.Describe()}
 	res.Class = fmt.Sprintf("tasks=%d", len(p.Tasks))
 	k := len(p.Tasks)
